@@ -131,6 +131,15 @@ func Fixed() []*Grammar {
 			P("Names", Al(Call(A(0)), "name"), Al(Call(A(0), T(1)), "Names", "name")),
 		}})
 
+	// tokensonly: a syntax part that mentions only token identifiers, no lexical part,
+	// and NO -no_lexer: gocc still has to write a lexer package
+	add(&Grammar{ID: "tokensonly", GoccOnly: true,
+		Prods: []*Prod{
+			P("Hello", Al(Call(A(0), A(1)), "Greeting", "Names")),
+			P("Greeting", Al(Call(T(0)), "hiya"), Al(Call(T(0), T(1)), "hallo", "kitty")),
+			P("Names", Al(Call(A(0)), "name"), Al(Call(A(0), T(1)), "Names", "name")),
+		}})
+
 	// mail: lexer only
 	add(&Grammar{ID: "mail", Seps: wsSeps,
 		Lex: []LexDef{
